@@ -224,6 +224,8 @@ def raw_apps(iface):
                 await send({"type": "http.response.body", "body": b""})
                 return
             hdrs = [(b"content-type", b"text/plain"), (b"set-cookie", b"a=1"), (b"set-cookie", b"b=Jos\xe9"), (b"x-multi", b"1"), (b"x-multi", b"2")]
+            if shape == "caps":  # an application of some other framework that writes header names the way they are printed in the RFCs
+                hdrs = [(b"Content-Type", b"text/plain"), (b"Set-Cookie", b"a=1; Path=/"), (b"Set-Cookie", b"b=2; Expires=Wed, 21 Oct 2026 07:28:00 GMT"), (b"SET-COOKIE", b"c=3"), (b"X-Multi", b"1"), (b"x-multi", b"2")]
             if shape == "utf8_headers":  # header bytes that happen to be valid UTF-8 must come out as the same bytes
                 hdrs += [(b"x-utf8", b"r\xc3\xa9sum\xc3\xa9"), (b"set-cookie", b"u=\xc3\xa9"), (b"content-disposition", b'attachment; filename="\xe4\xb8\xad.txt"'), (b"x-sp", b" padded  value ")]
             await send({"type": "http.response.start", "status": 200, "headers": iter(hdrs) if shape == "headers_iter" else hdrs})
@@ -244,7 +246,7 @@ def raw_apps(iface):
                 return
             if shape == "raise_after_start":
                 raise Boom("after start")
-            n = {"one": 1, "two": 2, "three": 3, "nobody": 0, "raise_after_chunk": 2, "utf8_headers": 1}[shape]
+            n = {"one": 1, "two": 2, "three": 3, "nobody": 0, "raise_after_chunk": 2, "utf8_headers": 1, "caps": 1}[shape]
             if n == 0:
                 await send({"type": "http.response.body"})
                 return
@@ -255,7 +257,7 @@ def raw_apps(iface):
         app.calls = 0
         app.closed = 0
         return app
-    return {s: (lambda s=s: amk(s)) for s in ("one", "no_headers", "two", "three", "nobody", "one_nokey", "two_nokey", "sees_scope", "utf8_headers", "mixed_sizes", "headers_iter", "raise_before", "raise_after_start", "raise_after_chunk", "typeerror_before", "attributeerror_before")}
+    return {s: (lambda s=s: amk(s)) for s in ("one", "caps", "no_headers", "two", "three", "nobody", "one_nokey", "two_nokey", "sees_scope", "utf8_headers", "mixed_sizes", "headers_iter", "raise_before", "raise_after_start", "raise_after_chunk", "typeerror_before", "attributeerror_before")}
 
 
 # ------------------------------------------------------------------ wrappers
